@@ -16,6 +16,7 @@ import Bmc.Proofs.GenEnc.V1Session
 import Bmc.Proofs.GenEnc.Message
 import Bmc.Proofs.GenEnc.GetPowerReadingReq
 import Bmc.Proofs.GenEnc.V2Session
+import Bmc.Proofs.GenEnc.AES128CBC
 /-! # The serialisers RE-TRANSLATED from the Go source on every run are the hand-written encoder models (property-support theorems)
 
 `Bmc.Gen.Enc.T.serializeTo` is emitted by `tools/encgen` from `(*T).SerializeTo` as the source stands now, statement by
